@@ -1,4 +1,5 @@
 import PasetoModel.Types
+import PasetoModel.Extracted.Api
 /-! # C18 — misuse fails to compile; secrets cannot be printed
 The implementation table is re-read from rustc on every run; the kernel re-checks that, for every
 operation at every combination of type arguments, a program type-checks exactly when the
@@ -103,6 +104,16 @@ theorem correct_programs_compile (v : Backend) (p : Purpose) :
     typechecks (.sealTok v p v (sealingKeyOf p)) = true ∧ typechecks (.unsealTok v p v p.toKind) = true ∧
     typechecks (.exposeKey v .secretK) = true ∧ typechecks (.displayKey v .publicK) = true := by
   rw [types_match_policy, types_match_policy, types_match_policy, types_match_policy]; simp [allowed]
+
+/-- **Secret key material only through the explicit expose call.**  Over the impl table rustc reports on every run: none of the
+    conversions / views that would hand out the bytes of a local, secret or PKE secret key (`Into<[u8; N]>`, `Into<Vec<u8>>`,
+    `AsRef<[u8]>`, `Borrow<[u8]>`, `Deref`, `ToString`, `Hash`, `LowerHex`, …), and none that would turn an unsealed or unverified
+    token into text or hand out its footer, is implemented on any back end; and `Key` has no public field. -/
+theorem no_forbidden_impl :
+    Extracted.Impls.forbiddenImpls.all (fun p => !p.2) = true ∧ Extracted.Api.keyPubFields = [] := by
+  constructor
+  · decide +kernel
+  · decide
 
 /-! non-vacuity -/
 example : typechecks (.verify .v4 .localP .v4 .publicK) = false := by decide
